@@ -681,9 +681,9 @@ func noAnswer(r *fe.Result) string {
 func Run(c *vl.Ctx) {
 	quick := c.Quick()
 	if quick {
-		c.SetBudget(75 * time.Second)
+		c.SetBudget(300 * time.Second)
 	} else {
-		c.SetBudget(800 * time.Second)
+		c.SetBudget(1500 * time.Second)
 	}
 	groups := enumerate(quick)
 	nItems := 0
@@ -748,6 +748,24 @@ func Run(c *vl.Ctx) {
 			}
 		}
 	}
+
+	// the copy-and-write family (accepted programs, native observation) runs beside the
+	// front-end product; it needs the real compiler and runtime
+	var aliasJudged int
+	var aliasExtra map[string]any
+	aliasDone := make(chan bool)
+	go func() {
+		defer close(aliasDone)
+		if os.Getenv("VERIF_C06_NOALIAS") != "" {
+			return
+		}
+		aliasJudged, aliasExtra = runAlias(c, quick, compile, func() *run.Runner {
+			needRunner()
+			rn := <-rnReady
+			rnReady <- rn
+			return rn
+		})
+	}()
 
 	vl.ParDo(len(groups), 16, func(gi int) {
 		g := groups[gi]
@@ -960,6 +978,7 @@ func Run(c *vl.Ctx) {
 		}
 		select {
 		case rn = <-rnReady:
+			rnReady <- rn
 		case <-time.After(wait):
 			// the compiler could not even be built within the tier budget (loaded machine)
 			nativeDeadline = time.Now().Add(-time.Second)
@@ -1054,6 +1073,8 @@ func Run(c *vl.Ctx) {
 	}
 
 	dbg("native phase done")
+	<-aliasDone
+	evals += int64(aliasJudged)
 	var cl []string
 	for k, n := range classN {
 		cl = append(cl, fmt.Sprintf("%s x%d", k, n))
@@ -1086,10 +1107,16 @@ func Run(c *vl.Ctx) {
 		}
 	}
 	c.Finish(vl.Coverage{Evaluations: evals, Exhaustive: true,
-		Rule: "complete product place kind x root type x access path (where typed) x mutation form (where typed) x context; each point = mutant + control twin differing in the declaration only; " +
-			"oracle: control accepted, mutant rejected with >=1 error; evaluations = judged programs (2 per point), decided through packs + single programs; accepted mutants are run natively; distinct_nontrivial = case ids",
+		Rule: "(a) complete product place kind x root type x access path (where typed) x mutation form (where typed) x context; each point = mutant + control twin differing in the declaration only; " +
+			"oracle: control accepted, mutant rejected with >=1 error; evaluations = judged programs (2 per point), decided through packs + single programs; accepted mutants are run natively; (b) alias family: place kind x root type x aggregate-typed path x by-value copy operation x context, every point accepted by the front end is compiled and run natively, oracle: leaves seen through the binding (and through the owner) equal the initial constants before and after; distinct_nontrivial = case ids",
 		Bound: fmt.Sprintf("kinds=%d mutation_forms=%d contexts<=%d points=%d front_end_compiles=%d", nKinds, nMuts, nctx, nItems, compiles),
-		Extra: map[string]any{"failure_classes_kind_type_path_mutation_xcontexts": cl}})
+		Extra: func() map[string]any {
+			m := map[string]any{"failure_classes_kind_type_path_mutation_xcontexts": cl}
+			for k, v := range aliasExtra {
+				m[k] = v
+			}
+			return m
+		}()})
 }
 
 // observed splits the lines printed by a program rendered with prints into the leaves before
